@@ -1155,8 +1155,13 @@ class Host(utils.EventEmitter):
             # an actual command
             logger.debug('no-command event for flow control')
 
-            # Release the command semaphore if needed
-            if event.num_hci_command_packets and self.command_semaphore.locked():
+            # Release the command semaphore if needed (never while a command is
+            # still waiting for its response: its sender holds the semaphore)
+            if (
+                event.num_hci_command_packets
+                and self.command_semaphore.locked()
+                and self.pending_response is None
+            ):
                 logger.debug('command complete event releasing semaphore')
                 self.command_semaphore.release()
 
